@@ -214,23 +214,45 @@ def run(ctx):
         ok_args = ok_args and not bad
     ctx.ob("C02.4", "%s|request-line-fields-to-request" % PM.read_def, "method, target and version handed to new_request are the first, second and third space-separated field of the request line, "
            "unchanged (no case mapping, decoding, replacing, trimming of characters ...)", ok_args, "%s:%d" % (rd.file, rd.line), detail)
-    # headers: what is handed to new_request is the vector the loop appended to
-    # inside new_request: parameters -> fields
+    # inside new_request: every piece of data it is handed (everything but the socket reader and writer) is stored in the Request
+    # unchanged: some field (at any depth of private sub-structs) holds exactly that parameter, or a plain projection of it, on every path
+    # that builds a Request; and nothing modifies it in place on the way
     nr = FM.nr
-    ftypes = {x["name"]: x["ty"] for x in facts.adt(REQ)["variants"][0]["fields"]}
-    ptypes = {i: nr.locals[i]["ty"] for i in range(1, nr.argc + 1)}
     oks = [r for r in FM.rows if r["kind"] == "ok"]
-    for fld, fty in sorted(ftypes.items()):
-        cands = [i for i, t in ptypes.items() if t == fty]
-        if len(cands) != 1 or fty in ("bool",) and len([1 for t in ftypes.values() if t == "bool"]) > 1:
+    def leaves(v, path=()):
+        if v and v[0] == "agg" and isinstance(v[3], dict) and v[3] and (v[1] == REQ or v[1] in facts.adts and facts.adts[v[1]]["kind"] == "Struct"):
+            for k, x in v[3].items():
+                yield from leaves(x, path + (k,))
+        else:
+            yield path, v
+    def is_param(v, i):
+        return v is not None and v[0] == "init" and isinstance(v[1], tuple) and v[1][:1] == (i,) and all(isinstance(x, str) and x.startswith(".") for x in v[1][1:])
+    ftypes = {x["name"]: x["ty"] for x in facts.adt(REQ)["variants"][0]["fields"]}
+    n_par = 0
+    for i in range(1, nr.argc + 1):
+        ty = nr.locals[i]["ty"]
+        if ty in ("R", "W"):
             continue
-        vals = {repr(r["request"].get(fld)) for r in oks}
-        ok = vals == {repr(("init", (cands[0],)))}
-        ctx.ob("C02.4", "%s|field-%s" % (FM.nr0.id, fld), "Request.%s is exactly the value handed to new_request" % fld, ok, "%s:%d" % (FM.nr0.file, FM.nr0.line), None if ok else str(sorted(vals))[:160])
-        # ... and nothing changes it in place on the way (`headers.retain(..)`, `path.push_str(..)`): it is never borrowed mutably or assigned
-        muts = mutations_of(nr, cands[0])
-        ctx.ob("C02.4", "%s|param-%s-not-modified" % (FM.nr0.id, fld), "the %s handed to new_request is not modified in place before it is stored" % fld, not muts, "%s:%d" % (FM.nr0.file, FM.nr0.line),
+        n_par += 1
+        stored_everywhere = bool(oks)
+        changed = []
+        where_ = set()
+        for r in oks:
+            whole = ("agg", REQ, "Request", r["request"])
+            hit = False
+            for path, v in leaves(whole):
+                d = absint.deep(r["path"].state, v)
+                if is_param(d, i):
+                    hit = True
+                    where_.add(".".join(path))
+            stored_everywhere = stored_everywhere and hit
+        pname = nr.locals[i].get("name") or "#%d" % i
+        ctx.ob("C02.4", "%s|param-%d-stored" % (FM.nr0.id, i), "what new_request is handed as its parameter %d (%s) is stored in the Request exactly as given, on every path that builds one" % (i, short(ty)),
+               stored_everywhere and not changed, "%s:%d" % (FM.nr0.file, FM.nr0.line), "stored in %s" % sorted(where_) if stored_everywhere and not changed else ("changed on the way: %s" % changed[:2] if changed else "not stored on some path"))
+        muts = mutations_of(nr, i)
+        ctx.ob("C02.4", "%s|param-%d-not-modified" % (FM.nr0.id, i), "parameter %d (%s) of new_request is not modified in place before it is stored" % (i, short(ty)), not muts, "%s:%d" % (FM.nr0.file, FM.nr0.line),
                None if not muts else str(muts[:3]))
+    ctx.floor("C02.4 data parameters of new_request", n_par, 1)
     # accessors return the stored fields
     import request_rules as RR
     RM = RR.rmodel(facts)
